@@ -97,6 +97,12 @@ Theorem C05_gradient_of_program : forall p (x : list R), okR x p ->
   exists G, gradient (fun v => eval v p) x = (eval (T:=R) x p, G) /\
     forall i xi, nth_error x i = Some xi -> is_derive (fun t => eval (T:=R) (replace_at x i t) p) xi (mget G i 0).
 Proof. exact gradient_of_program. Qed.
+(* jacobian of several programs: entry (k, i) is the partial derivative of output k with respect to x_i *)
+Theorem C05_jacobian_of_programs : forall (ps : list prog) (x : list R), List.Forall (okR x) ps -> x <> nil ->
+  exists J, jacobian (fun v => map (eval v) ps) x = (map (eval (T:=R) x) ps, J) /\
+    forall k pk i xi, nth_error ps k = Some pk -> nth_error x i = Some xi ->
+      is_derive (fun t => eval (T:=R) (replace_at x i t) pk) xi (mget J k i).
+Proof. exact jacobian_of_programs. Qed.
 
 (* non-vacuity: a three-element input has a third element *)
 Example C05_seed_example : exists s, nth_error (seed_gradient [1; 2; 3]) 2 = Some s /\ part_DualVec s (2%nat :: nil) = 1 /\ part_DualVec s (0%nat :: nil) = 0.
@@ -118,5 +124,6 @@ Definition C05_bundle := (C05_seed_gradient_spec,
   C05_first_derivative_of_program,
   C05_second_derivative_of_program,
   C05_third_derivative_of_program,
-  C05_gradient_of_program).
+  C05_gradient_of_program,
+  C05_jacobian_of_programs).
 Print Assumptions C05_bundle.
